@@ -221,6 +221,14 @@ def run(ctx):
         rngw = ctx.rng('wild')
         wants_w = rngw.sample(wants_w, min(len(wants_w), 500))
     wp = [(g, w) for w in wants_w for g in gots_w]
+    # wildcards next to whitespace other than blank / tab / newline (CRLF text, form feeds, no-break spaces ...): a wildcard absorbs
+    # the whitespace around it, so the got may be SHORTER than the literal characters of the want
+    for ws in ['\r', '\r\n', '\x0c', '\x0b', '\xa0', '\x85', '\x1c', '\u2028', '\u3000']:
+        for p0 in ('a', 'ab', ''):
+            for p1 in ('b', 'a b', ''):
+                for w in (p0 + ws + '...' + ws + p1, p0 + ws + '...' + p1, p0 + '...' + ws + ws + p1):
+                    for mid in ('', ws, ws + ws, ' ', '\n', ws + 'a' + ws, 'a'):
+                        wp.append((p0 + mid + p1, w))
     chunks = [wp[i:i + 1500] for i in range(0, len(wp), 1500)]
     results = [r for ch in common.pmap(_pairs_worker, chunks) for r in ch]
     analyse(ctx, wp, results, 'wildcards')
